@@ -289,9 +289,10 @@ const (
 )
 
 type job struct {
-	cs  c02Case
-	exp expect
-	key string // distribution key
+	cs      c02Case
+	exp     expect
+	key     string   // distribution key
+	expRuns []string // same-key stream: the error class every Execute (or the single run) must end in: "none", "format", "invalid-regex"
 }
 
 func errClass(e string) string {
@@ -331,6 +332,22 @@ func judge(j job, o c02Out) (what, got, want string) {
 		return "", "", ""
 	}
 	cl := errClass(o.Res.Err)
+	if cl == "timeout" || o.TimedOut {
+		return "", "", "" // the time limit hit (machine load): inconclusive, never a failure; counted as outcome:timeout
+	}
+	if len(j.expRuns) > 0 {
+		got := []string{cl}
+		if len(j.cs.History) > 0 {
+			got = nil
+			for _, e := range o.Runs {
+				got = append(got, errClass(e))
+			}
+		}
+		if strings.Join(got, ",") != strings.Join(j.expRuns, ",") {
+			return "the same cached key used again under different conditions does not give the required outcome each time (an under-supplied printf / an invalid regex must be a run-time error EVERY time, a sufficient one must succeed)",
+				strings.Join(got, ","), strings.Join(j.expRuns, ",")
+		}
+	}
 	switch j.exp {
 	case expDepthErr:
 		if cl != "call-depth" {
@@ -614,8 +631,14 @@ func run(c *vh.Ctx) {
 	c.Note(fmt.Sprintf("shapes: %d cases (RS newline/byte/paragraph/regex/multi-byte char, CSV, TSV) x inputs over {LF, CR, sep, quote, a} x chunkings, incl. shapes "+
 		"straddling offset 65536; panics only (C07/C08 check the records)", nshape))
 	lap("shapes")
+	// 5d. the same cached key (printf format, dynamic regex, CSV field name, stream name) used again under different conditions
+	kj := sameKeyJobs(c)
+	st = runBatch(c, kj)
+	c.Note(fmt.Sprintf("same-key: %d cases (formats with k, k-1, 0, k+2 arguments in every order within one run and across Execute calls, with the "+
+		"caches empty or full; dynamic regexes valid/invalid across ~ match split sub gsub FS RS; CSV field names; one name as input file, output file and command)", len(kj)))
+	lap("same-key")
 	// 6. the goawk binary on a sample
-	binarySample(c)
+	binarySample(c, kj)
 	lap("binary")
 }
 
@@ -812,7 +835,7 @@ func fieldCorrespondence(c *vh.Ctx) {
 var buildOnce sync.Once
 var goawkBin string
 
-func binarySample(c *vh.Ctx) {
+func binarySample(c *vh.Ctx, extra []job) {
 	repo := os.Getenv("VERIF_REPO")
 	if repo == "" {
 		repo = "/repo"
@@ -842,10 +865,19 @@ func binarySample(c *vh.Ctx) {
 		stdin string
 	}
 	var cases []bcase
-	for _, j := range corpusJobs() {
+	pool := corpusJobs()
+	ncorpus := len(pool)
+	for _, j := range extra {
+		if len(j.cs.History) == 0 && len(j.expRuns) == 1 {
+			pool = append(pool, j)
+		}
+	}
+	var wantErr []string
+	for pi, j := range pool {
 		if j.cs.Sandbox {
 			continue
 		}
+		_ = pi
 		var args []string
 		for i := 0; i+1 < len(j.cs.Vars); i += 2 {
 			args = append(args, "-v", string(vh.Unhx(j.cs.Vars[i]))+"="+string(vh.Unhx(j.cs.Vars[i+1])))
@@ -865,13 +897,30 @@ func binarySample(c *vh.Ctx) {
 		}
 		args = append(args, "--", src)
 		cases = append(cases, bcase{args, string(vh.Unhx(j.cs.Input))})
+		w := ""
+		if len(j.expRuns) == 1 {
+			w = j.expRuns[0]
+		}
+		wantErr = append(wantErr, w)
 	}
-	n := c.N(30, 400)
+	_ = ncorpus
+	n := c.N(60, 600)
 	if len(cases) > n {
-		// the first cases of the corpus are the finding witnesses: always kept
-		rest := cases[6:]
-		c.Rng.Shuffle(len(rest), func(i, k int) { rest[i], rest[k] = rest[k], rest[i] })
-		cases = cases[:n]
+		// the first cases of the corpus are the finding witnesses: always kept; the rest is a seeded sample of corpus + same-key cases
+		idx := make([]int, len(cases)-6)
+		for i := range idx {
+			idx[i] = i + 6
+		}
+		c.Rng.Shuffle(len(idx), func(i, k int) { idx[i], idx[k] = idx[k], idx[i] })
+		keep := []int{0, 1, 2, 3, 4, 5}
+		keep = append(keep, idx[:n-6]...)
+		var cs2 []bcase
+		var w2 []string
+		for _, i := range keep {
+			cs2 = append(cs2, cases[i])
+			w2 = append(w2, wantErr[i])
+		}
+		cases, wantErr = cs2, w2
 	}
 	type bres struct {
 		status int
@@ -908,6 +957,17 @@ func binarySample(c *vh.Ctx) {
 		if strings.Contains(r.stderr, "panic:") || strings.Contains(r.stderr, "goroutine ") || strings.Contains(r.stderr, "fatal error:") {
 			c.Fail(vh.Failure{Kind: "oracle", What: "the goawk binary crashed with a Go trace", Case: map[string]interface{}{"stream": "binary", "argv": cases[i].args, "stdin_hex": vh.HxS(cases[i].stdin)},
 				Got: fmt.Sprintf("exit %d: %s", r.status, r.stderr), Want: "exit status and at most an error message"})
+			continue
+		}
+		if r.killed || wantErr[i] == "" {
+			continue
+		}
+		c.Hit("binary:same-key")
+		gotCl := errClass(r.stderr)
+		if gotCl != wantErr[i] {
+			c.Fail(vh.Failure{Kind: "oracle", What: "the goawk binary: the same cached key used again under different conditions does not give the required outcome",
+				Case: map[string]interface{}{"stream": "binary", "argv": cases[i].args, "stdin_hex": vh.HxS(cases[i].stdin)},
+				Got:  fmt.Sprintf("exit %d, stderr class %s: %s", r.status, gotCl, r.stderr), Want: wantErr[i]})
 		}
 	}
 }
